@@ -140,7 +140,10 @@ impl Lane for C15 {
         let seed = draw_seed(rng);
         if gen == "erdos_renyi" && (0.0..=1.0).contains(&p) && rng.chance(1, 2) {
             // a draw that is exactly 0.0 matters at the ends of the p range
-            let boundary = (0..4u64).any(|t| Xoshiro256StarStar::new(seed.wrapping_add(t)).next_f64() == 0.0);
+            let boundary = (0..4u64).any(|t| {
+                let f = Xoshiro256StarStar::new(seed.wrapping_add(t)).next_f64();
+                f == 0.0 || f == 1.0 - f64::EPSILON || f == 0.5
+            });
             if boundary {
                 p = *rng.pick(&[1.0, 0.0, f64::MIN_POSITIVE, 1.0 - f64::EPSILON / 2.0]);
             }
@@ -226,6 +229,12 @@ impl Lane for C15 {
         }
         // next_f64 in [0, 1) on the draws of this seed (pure; counted with the sequential checks)
         st.sequential_checks += 1;
+        if Xoshiro256StarStar::new(b.seed).next_f64() == 1.0 - f64::EPSILON {
+            st.bump("probe/seed_whose_first_draw_is_the_largest_possible");
+            if b.gen == "erdos_renyi" && p_of(b) == 1.0 {
+                st.bump("probe/p_1_with_a_draw_equal_to_the_largest_possible");
+            }
+        }
         if Xoshiro256StarStar::new(b.seed).next_f64() == 0.0 {
             st.bump("probe/seed_whose_first_draw_is_exactly_zero");
             if b.gen == "erdos_renyi" && p_of(b) == 1.0 {
